@@ -50,6 +50,13 @@ pub fn label_from_wire(lt: u8, bytes: &[u8]) -> Label {
 /// random label of a given kind index: 0 six random non-zero, 1 six with a single non-zero byte,
 /// 2 three random, 3 three all-zero (legal), 4 broadcast
 pub fn gen_label(rng: &mut Rng, kind: usize) -> Label {
+    // one label in eight is a "special looking" value of its kind: all ones (not the broadcast label type!),
+    // ones and zeroes at the ends, bytes that look like header fields
+    if kind != 3 && kind < 4 && rng.chance(1, 8) {
+        let six: [[u8; 6]; 6] = [[0xFF; 6], [0, 0, 0, 0, 0, 1], [0x80, 0, 0, 0, 0, 0], [0xFF, 0xFF, 0xFF, 0, 0, 0], [0, 0, 0, 0xFF, 0xFF, 0xFF], [0x30, 0x00, 0xC0, 0x05, 0x00, 0x81]];
+        let three: [[u8; 3]; 4] = [[0xFF; 3], [0, 0, 1], [0x80, 0, 0], [0xF0, 0x03, 0x00]];
+        return if kind < 2 { Label::SixBytesLabel(six[rng.below(6)]) } else { Label::ThreeBytesLabel(three[rng.below(4)]) };
+    }
     match kind {
         0 => {
             let mut b = [0u8; 6];
